@@ -38,6 +38,24 @@ class BuiltinMixin:
             raise Unsupported(f"builtin {name}")
         return m(args, kwargs, st, node)
 
+    def bi_all(self, args, kwargs, st, node):
+        return self._any_all(args[0], True, st)
+
+    def bi_any(self, args, kwargs, st, node):
+        return self._any_all(args[0], False, st)
+
+    def _any_all(self, v, universal, st):
+        if v.__class__.__name__ == "GenExp":
+            r = self.quantify_genexp(v, universal)
+            return r if isinstance(r, bool) else wrap(TBool, r)
+        if isinstance(v, (list, tuple)):
+            ts = [self.truthy(x) for x in v]
+            if all(isinstance(t, bool) for t in ts):
+                return all(ts) if universal else any(ts)
+            ts = [z3.BoolVal(t) if isinstance(t, bool) else t for t in ts]
+            return wrap(TBool, z3.And(*ts) if universal else z3.Or(*ts))
+        raise Unsupported(f"any/all of {v!r}")
+
     def bi_len(self, args, kwargs, st, node):
         v = args[0]
         if isinstance(v, (list, tuple, dict, str, frozenset)):
